@@ -14,13 +14,32 @@ from bacpypes.service.object import ReadWritePropertyServices
 from bacpypes.service.cov import ChangeOfValueServices
 from bacpypes.apdu import (SubscribeCOVRequest, SimpleAckPDU, ReadPropertyRequest, ReadPropertyACK)
 
-STUBS = ["virtual clock (task._time)", "asyncore.loop -> clock advance", "task._Trigger -> wake flag",
-         "fresh singletons per path"]
+import bacpypes.service.cov as _cov
+
+STUBS = ["virtual clock (task._time), counting whole seconds as Python ints (World(t0=0)) as long as only whole-second "
+         "timers fire", "asyncore.loop -> clock advance", "task._Trigger -> wake flag", "fresh singletons per path",
+         "module-global `int` of bacpypes.service.cov -> float.__int__ (same truncation; the engine's int() would "
+         "enumerate the values of a solver-backed float one by one)"]
+
+
+def _int(x=0, *base):
+    """int() for the module under test: the same truncation toward zero, but a solver-backed float stays
+    symbolic (CrossHair's own int() concretises it, which enumerates every lifetime second by second)"""
+    if not base and isinstance(x, float):
+        return x.__int__()
+    return int(x, *base)
+
+
+_cov.int = _int
 
 DEVICE = 20
 FIRST_SUBSCRIBER = 31
 LIFE_MAX = 120
 DT_MAX = 130
+# transaction timers (APDU timeout of every stack, application timeout of the serving side) are put far beyond
+# every instant a scenario can reach: nothing is ever lost here, so they never fire, and their order relative to
+# the subscription lifetimes in the task heap would only multiply paths (lifetime <, =, > 3 s)
+FAR_MS = 3600000
 
 
 class Device(nl.IOStack, ReadWritePropertyServices, ChangeOfValueServices):
@@ -31,7 +50,7 @@ class Subscriber(nl.AppStack):
     """a COV client: records the notifications handed to its application, acknowledges confirmed ones"""
 
     def __init__(self, dev, lan):
-        nl.AppStack.__init__(self, dev, lan)
+        nl.AppStack.__init__(self, dev, lan, app_timeout=FAR_MS)
         self.notes = []         # ("C" | "U", apdu)
 
     def do_UnconfirmedCOVNotificationRequest(self, apdu):
@@ -47,7 +66,9 @@ FLAG_SETS = ([0, 0, 0, 0], [0, 1, 0, 0], [0, 0, 0, 1])
 # object families: how the monitored object is built, how its present value is drawn, a value no draw can
 # produce (two of them, for the closing checks) and how a notified present value is decoded
 KINDS = {
-    "iv": dict(oid=("integerValue", 1), datatype=Integer, incremental=True, start=0, far=(50, -50)),
+    "iv": dict(oid=("integerValue", 1), datatype=Integer, incremental=True, start=10, far=(60, 110)),
+    # the same with negative values (a second path through Integer.encode per notified write)
+    "iv-signed": dict(oid=("integerValue", 1), datatype=Integer, incremental=True, start=0, far=(50, -50)),
     "av": dict(oid=("analogValue", 1), datatype=Real, incremental=True, start=0.0, far=(8.0, -8.0),
                inc=0.5, values=(0.0, 0.25, 0.5, 1.0)),
     "pc": dict(oid=("pulseConverter", 1), datatype=Real, incremental=True, start=0.0, far=(32.0, -32.0),
@@ -60,8 +81,8 @@ KINDS = {
 
 def make_object(d, kind, inc):
     k = KINDS[kind]
-    common = dict(objectIdentifier=k["oid"], objectName=kind + "1", presentValue=k["start"], statusFlags=[0, 0, 0, 0])
-    if kind == "iv":
+    common = dict(objectIdentifier=k["oid"], objectName="monitored", presentValue=k["start"], statusFlags=[0, 0, 0, 0])
+    if kind in ("iv", "iv-signed"):
         if inc is None:
             inc = d.int(1, 4, 'increment')
         return IntegerValueObject(covIncrement=inc, **common), inc
@@ -77,6 +98,8 @@ def make_object(d, kind, inc):
 
 def draw_value(d, kind, name):
     if kind == "iv":
+        return d.int(1, 19, name)
+    if kind == "iv-signed":
         return d.int(-9, 9, name)
     if kind == "msv":
         return d.int(1, 3, name)
@@ -94,15 +117,15 @@ class Rig:
     def __init__(self, d, kind, slots, inc):
         self.d = d
         self.kind = kind
-        self.w = World()
+        self.w = World(t0=0)
         self.lan = nl.FaultLAN([], world=self.w)
-        self.dev = Device(nl.make_device("dut", DEVICE), self.lan)
+        self.dev = Device(nl.make_device("dut", DEVICE, apduTimeout=FAR_MS), self.lan, app_timeout=FAR_MS)
         self.obj, self.inc = make_object(d, kind, inc)
         self.dev.add_object(self.obj)
         self.oid = KINDS[kind]["oid"]
         self.slots = [tuple(s) for s in slots]
         nsubs = 1 + max(j for (j, p) in self.slots)
-        self.subs = [Subscriber(nl.make_device("sub%d" % j, FIRST_SUBSCRIBER + j), self.lan) for j in range(nsubs)]
+        self.subs = [Subscriber(nl.make_device("sub%d" % j, FIRST_SUBSCRIBER + j, apduTimeout=FAR_MS), self.lan) for j in range(nsubs)]
         self.ref = CovRef(self.inc if KINDS[kind]["incremental"] else None, KINDS[kind]["start"], [0, 0, 0, 0])
 
     # ------------------------------------------------------------ driving the subscribers
